@@ -74,3 +74,12 @@ Example C19_example :
   /\ show_sys (run_sched ws (Some (b "old")) [0; 1; 2; 1; 0; 2; 1]%nat) = b "obj:6f6c64|tmp=3|running,running,running".
 Proof. vm_compute. split; reflexivity. Qed.
 Print Assumptions C19_example.
+
+(* the source of today's backend performs exactly the micro-steps the model above runs: a temp name from the shared counter (fresh for
+   every writer, whatever its destination), created without an await before the guard exists, renamed before the guard is disarmed,
+   removed by the guard otherwise; re-translated from crates/s3s-fs/src on every run *)
+From S3V Require Import model.FsWriteProtocol gen.FsWriteSites.
+Theorem C19_write_protocol_as_modelled :
+  protocol_as_modelled gen_prepare_file_write gen_writer_done gen_writer_drop gen_tmp_counter_lines gen_prepare_calls = true.
+Proof. vm_compute. reflexivity. Qed.
+Print Assumptions C19_write_protocol_as_modelled.
